@@ -73,11 +73,13 @@ ZipDest(n, d) == IF d = 1 THEN Store(n) \o <<"root">> ELSE Store(n) \o <<"a", "r
 \*           relchild       : child.EnsureRelPath(name), child = root/a    (scope is the top structure)
 \*           absroot        : EnsureAbsPath(<root> + "/" + name)
 \*           absparent      : EnsureAbsPath(<parent of root> + "/" + name)
+\*           reldir         : EnsureRelDir(segment, segment, ...)   (the segments of the name as separate arguments)
 \*   scan    root / parent  : ScanStorage(<storage> + "/" + name) / ScanStorage(<parent> + "/" + name)
+\*           relroot        : ScanStorage(name) with a relative name, the working directory being the storage directory
 CompOps == { <<"fstree", "put">>, <<"fstree", "get">>, <<"fstree", "delete">>, <<"fstree", "query">>,
              <<"zip", "file">>, <<"zip", "dir">>,
-             <<"ds", "rel">>, <<"ds", "relchild">>, <<"ds", "absroot">>, <<"ds", "absparent">>,
-             <<"scan", "root">>, <<"scan", "parent">> }
+             <<"ds", "rel">>, <<"ds", "relchild">>, <<"ds", "absroot">>, <<"ds", "absparent">>, <<"ds", "reldir">>,
+             <<"scan", "root">>, <<"scan", "parent">>, <<"scan", "relroot">> }
 
 \* the four ways a name is resolved: against the root, a child of the root, the parent of the root,
 \* and the unpack directory of the updater
